@@ -65,6 +65,14 @@ REQUIRED_THEOREMS = [
     "cartVectorLaplace_poly_3d", "cartTensorDivergence_poly_3d", "cartLaplace_poly_3d_mixed",
     "cylGradient_poly", "cylVectorGradient_poly", "cylTensorDivergence_poly", "cylVectorLaplace_components_poly",
     "cylVectorLaplace_z_even_uniform", "cylLaplace_even_uniform", "cylVectorLaplace_phi_axis_first_order",
+    # polar / spherical: remaining operators, uniform over all cells for fields regular at the axis / origin
+    "radialGradient_poly", "radialDivergence_poly", "sphLaplace_plain_even_uniform",
+    "sphDivergence_conservative_odd_uniform", "sphDivergence_conservative_odd_remainder_bound",
+    "sphLaplace_conservative_even_remainder_bound", "polarTensorDivergence_quartic_poly",
+    "sphTensorDivergence_plain_quartic_poly", "sphTensorDoubleDivergence_plain_regular_uniform",
+    "sphTensorDoubleDivergence_conservative_regular_poly", "sphTensorDivergence_conservative_regular_poly",
+    "polarLaplace_even_uniform_bound", "sphLaplace_plain_even_uniform_bound",
+    "sphLaplace_conservative_even_uniform_bound", "sphDivergence_conservative_odd_uniform_bound",
 ]
 EXTRA_PROP_FILES = ["C01Taylor", "C01Smooth", "C01SmoothB", "C01Axis", "C01Nine", "C01Gap"]
 RULE = ("matrix leg: seed-derived grids of the four stencil families (Cartesian 1-3 axes incl. UnitGrid, polar, "
